@@ -58,7 +58,7 @@ Definition int_of_string (s : string) : res Z :=
   let l := strip_l (list_of_string s) in
   let '(neg, l) := take_sign l in
   let '(v, n, rest) := digits_us l 0 0 in
-  if (n =? 0) || negb (match rest with [] => true | _ => false end) then Exc ValueError
+  if (n =? 0) || (4300 <? n) (* sys.get_int_max_str_digits() *) || negb (match rest with [] => true | _ => false end) then Exc ValueError
   else Ok (if neg then - v else v).
 
 Definition lower_l (l : list ascii) : list ascii := map lower_ascii l.
